@@ -43,7 +43,7 @@ theorem match_unique (upper : Char → List Char) : ∀ (l : List LfnEntry), l.P
 /-- the core of `writeEntry_listing`: exactly one entry is inserted, at the position `find_free_entries` gives -/
 theorem writeEntry_insert (alloc : Bool) (slots : List (List Nat)) (units sfn : List Nat) (hs : Shape slots)
     (h1 : 1 ≤ units.length) (h255 : units.length ≤ 255) (hu : ∀ x ∈ units, x < 65536)
-    (hne : units ≠ []) (hlast : isPad (units.getLast hne) = false) (hsfn : slotClass sfn = .file) :
+    (hnz : ∀ x ∈ units, x ≠ 0) (hsfn : slotClass sfn = .file) :
     ∃ L1 L2, readDirEntries alloc true slots = L1 ++ L2 ∧
       readDirEntries alloc true (writeEntry slots units sfn) =
         L1 ++ ⟨sfn, units, findFree slots (numParts units.length + 1),
@@ -54,7 +54,7 @@ theorem writeEntry_insert (alloc : Bool) (slots : List (List Nat)) (units sfn : 
   obtain ⟨items, tail, rfl, hok, ht⟩ := hs
   obtain ⟨I1, Dd, I2, e1, e2, e3, e4⟩ := writeEntry_items items tail units sfn hok ht h1 h255 hu
   have hnew := newItem_ok units sfn h1 h255 hu hsfn
-  have hname := newItem_name units sfn h1 h255 hu hne hlast
+  have hname := newItem_name units sfn h1 h255 hu hnz
   have hgl : (lfnGenerate units (lfnChecksum (sfnName sfn))).length = numParts units.length :=
     (generate_complete units _ h1 (by omega) hu).2.2.2
   have hokI1 : ∀ it ∈ I1, it.Ok := fun x hx => hok x (by rw [e1]; simp [hx])
@@ -132,12 +132,12 @@ theorem writeEntry_bytes (slots : List (List Nat)) (units sfn : List Nat)
 theorem writeEntry_wf (upper : Char → List Char) (slots : List (List Nat)) (units sfn : List Nat)
     (hwf : DirWf upper slots)
     (h1 : 1 ≤ units.length) (h255 : units.length ≤ 255) (hu : ∀ x ∈ units, x < 65536)
-    (hne : units ≠ []) (hlast : isPad (units.getLast hne) = false) (hsfn : slotClass sfn = .file)
+    (hnz : ∀ x ∈ units, x ≠ 0) (hsfn : slotClass sfn = .file)
     (hraw : ∀ e ∈ listing slots, sfnName e.sfn ≠ sfnName sfn)
     (hfresh : ∀ e ∈ listing slots, ∀ q,
       ¬ (matchesName upper e q = true ∧ Names.eqName upper units (sfnName sfn) q = true)) :
     DirWf upper (writeEntry slots units sfn) := by
-  obtain ⟨L1, L2, e1, e2, _, _, e5⟩ := writeEntry_insert true slots units sfn hwf.shape h1 h255 hu hne hlast hsfn
+  obtain ⟨L1, L2, e1, e2, _, _, e5⟩ := writeEntry_insert true slots units sfn hwf.shape h1 h255 hu hnz hsfn
   have hr := hwf.rawNodup
   have hk := hwf.keys
   unfold listing at hr hk hraw hfresh
